@@ -214,4 +214,111 @@ example : Pkt_WF C06.examplePkt := by
   refine ⟨by decide, by decide, by decide, by decide, ?_, by decide, by decide, by decide, by decide, by decide, by decide⟩
   intro x hx; simp [AF.fresh] at hx
 
+/-! ### pack of the composite classes (added by the rev2 review: these clauses had no theorem) -/
+
+theorem TS_packBlocks_idem (ps : List Pkt) (h : ∀ p ∈ ps, Pkt_WF p) :
+    Acra.Model.MPEGTS.packBlocks (Acra.Model.MPEGTS.packBlocks ps).1 = Acra.Model.MPEGTS.packBlocks ps := by
+  induction ps with
+  | nil => rfl
+  | cons b bs ih =>
+    have hb := Pkt_pack_idempotent b false (h b (by simp))
+    have ih := ih (fun g hg => h g (by simp [hg]))
+    cases hp : Pkt.pack b with
+    | mk b' r =>
+      rw [hp] at hb
+      simp only at hb
+      cases r with
+      | error e => simp only [Acra.Model.MPEGTS.packBlocks, hp, hb]
+      | ok x =>
+        cases hq : Acra.Model.MPEGTS.packBlocks bs with
+        | mk bs' r2 =>
+          rw [hq] at ih
+          simp only at ih
+          cases r2 with
+          | ok y => simp only [Acra.Model.MPEGTS.packBlocks, hp, hq, hb, ih]
+          | error e => simp only [Acra.Model.MPEGTS.packBlocks, hp, hq, hb, ih]
+
+/-- `MPEGTS.pack` twice: same bytes, and the blocks as the first call left them -/
+theorem MPEGTS_pack_idempotent (s : TS) (h : ∀ p ∈ s.blocks, Pkt_WF p) : TS.pack (TS.pack s).1 = TS.pack s := by
+  simp only [TS.pack, TS_packBlocks_idem s.blocks h]
+
+/-- packing, assigning the same payload again and packing again changes nothing (what `PES.pack` / `PMT.pack` do) -/
+theorem Pkt_pack_same_payload (p : Pkt) (pl : Bytes) (ns : Bool) (h : Pkt_WF p) :
+    Pkt.pack { (Pkt.pack { p with payload := pl } ns).1 with payload := pl } ns = Pkt.pack { p with payload := pl } ns := by
+  have hq : Pkt_WF { p with payload := pl } := h
+  have e : ({ (Pkt.pack { p with payload := pl } ns).1 with payload := pl } : Pkt) = (Pkt.pack { p with payload := pl } ns).1 := by
+    rw [Pkt_pack_eq' _ ns hq]
+    unfold Pkt_packed; split <;> rfl
+  rw [e, Pkt_pack_idempotent _ ns hq]
+
+/-- non-vacuity: a stream of two well-formed packets (the C06 examples) -/
+example : ∀ p ∈ ({ blocks := [C06.examplePkt, { Pkt.fresh with pid := 7, payload := [1, 2] }] } : TS).blocks, Pkt_WF p := by
+  intro p hp
+  simp only [List.mem_cons, List.not_mem_nil, or_false] at hp
+  rcases hp with rfl | rfl
+  · refine ⟨by decide, by decide, by decide, by decide, by decide, by decide, ?_⟩
+    intro a ha
+    injection ha with ha
+    subst ha
+    refine ⟨by decide, by decide, by decide, by decide, ?_, by decide, by decide, by decide, by decide, by decide, by decide⟩
+    intro x hx; simp [AF.fresh] at hx
+  · refine ⟨by decide, by decide, by decide, by decide, by decide, by decide, ?_⟩
+    intro a ha; simp [Pkt.fresh] at ha
+
+theorem PES_ext_pkt (s : PES) (q : Pkt) : PES.ext { s with pkt := q } = PES.ext s := rfl
+
+
+/-- `PES.pack` twice: same result, fields as the first call left them (the transport header well formed) -/
+theorem PES_pack_idempotent (s : PES) (h : Pkt_WF s.pkt) : PES.pack (PES.pack s).1 = PES.pack s := by
+  have core : ∀ (len : Nat) (eb : R Bytes),
+      (∀ q : Pkt, PES.pack { s with pkt := q } =
+        (match structPack Acra.Gen.PES.PES_pack_fmt0 [0, 1, s.streamid, len] with
+         | .error e => ({ s with pkt := q }, .error e)
+         | .ok hb =>
+           match eb with
+           | .error e => ({ s with pkt := { q with payload := hb } }, .error e)
+           | .ok x => ({ s with pkt := (Pkt.pack { q with payload := hb ++ x ++ s.pesdata }).1 },
+                       (Pkt.pack { q with payload := hb ++ x ++ s.pesdata }).2))) →
+      PES.pack (PES.pack s).1 = PES.pack s := by
+    intro len eb hq
+    have hs := hq s.pkt
+    rw [show ({ s with pkt := s.pkt } : PES) = s from rfl] at hs
+    cases h0 : structPack Acra.Gen.PES.PES_pack_fmt0 [0, 1, s.streamid, len] with
+    | error e =>
+      simp only [h0] at hs hq
+      rw [hs]; exact hs
+    | ok hb =>
+      cases eb with
+      | error e =>
+        simp only [h0] at hs hq
+        rw [hs, hq]
+      | ok x =>
+        simp only [h0] at hs hq
+        rw [hs, hq, Pkt_pack_same_payload s.pkt _ false h]
+  cases hx : PES.ext s with
+  | none =>
+    refine core s.pesdata.length (.ok []) (fun q => ?_)
+    unfold PES.pack
+    simp only [PES_ext_pkt, hx]
+    rfl
+  | some t =>
+    obtain ⟨w1, w2, hd⟩ := t
+    refine core (3 + s.pesdata.length + hd.length)
+      (match structPack Acra.Gen.PES.PES_pack_fmt1 [w1, w2, hd.length] with
+        | .ok x => .ok (x ++ hd)
+        | .error e => .error e) (fun q => ?_)
+    unfold PES.pack
+    simp only [PES_ext_pkt, hx]
+    rfl
+
+/-- non-vacuity: the transport header of the C06 PES example is well formed -/
+example : Pkt_WF C06.headerExample.pkt := by
+  refine ⟨by decide, by decide, by decide, by decide, by decide, by decide, ?_⟩
+  intro a ha; simp [C06.headerExample, Pkt.fresh] at ha
+
+/- NOT proved (open): `STANAG_pack_idempotent`, `PMT_pack_idempotent`.  Both `pack`s rebuild the payload from fields
+   that `pack` does not modify and end in `PES.pack` / `MPEGPacket.pack`, so the same argument applies
+   (`PES_pack_idempotent`, `Pkt_pack_same_payload`); the case analysis over their four / five nested
+   `struct.pack` calls was not done. -/
+
 end Acra.Props.C13
